@@ -40,6 +40,14 @@ def shards(tier, seed):
     return out
 
 
+def _floats(e):
+    if e is None:
+        return None
+    if isinstance(e, (list, tuple)):
+        return [_floats(v) for v in e]
+    return float(e)
+
+
 def gen_case(rng, kind, subtype):
     G = 5
     r = rng.random()
@@ -52,7 +60,13 @@ def gen_case(rng, kind, subtype):
     s, tx, ty = A.fit_transform(rng, kind, els, subtype, hi - lo)
     tx -= lo * s
     ty -= lo * s
-    els = [gg.transform(e, kind, s, tx, ty) for e in els]
+    if subtype == "float32" and kind in ("point", "multipoint") and rng.random() < 0.4:
+        # coordinates at even integers just above 2**24; the odd integers between them (box ends below) are
+        # not representable in the coordinate subtype
+        s, tx, ty = 2, 2 ** 24 - 2 * lo + 2, 2 ** 24 - 2 * lo + 6
+        els = [_floats(gg.transform(e, kind, s, tx, ty)) for e in els]   # (arrow refuses big Python ints for float32)
+    else:
+        els = [gg.transform(e, kind, s, tx, ty) for e in els]
     inert = [None] + gg.empty_elements(kind)
     if kind == "point" and np.dtype(subtype).kind == "f":
         inert.append([float("nan"), float("nan")])      # a present point without coordinates
@@ -71,6 +85,10 @@ def gen_case(rng, kind, subtype):
         if rng.random() < 0.15:
             x0, x1 = vals_x[0], vals_x[-1]
             y0, y1 = vals_y[0], vals_y[-1]                                   # covers everything
+        if not subtype.startswith("float") and rng.random() < 0.5:
+            # box ends strictly between the values an integer coordinate subtype can hold (half-integers)
+            x0, x1, y0, y1 = (v + int(rng.choice([-1, 1])) if v % 2 == 0 and rng.random() < 0.7 else v
+                              for v in (x0, x1, y0, y1))
         q = [x0, x1, y0, y1]
         if rng.random() < 0.25:
             q[0], q[1] = q[1], q[0]
